@@ -15,6 +15,7 @@ import (
 	"sort"
 	"strings"
 	"sync"
+	"testing"
 	"testing/synctest"
 	"time"
 
@@ -533,4 +534,11 @@ func Repanic(x failer, p any) {
 		return
 	}
 	panic(p)
+}
+
+// Run executes scenario f(x) inside a fresh synctest bubble (helper shared by all Engine S checks).
+func Run(t *testing.T, x failer, f func()) {
+	if p := Bubble(t, func(g func()) { synctest.Test(t, func(*testing.T) { g() }) }, f); p != nil {
+		Repanic(x, p)
+	}
 }
